@@ -13,7 +13,10 @@ DRIVER_ROOTS = ["Driver/Exec.lean"]
 GENERATED = []
 RULE = ("case = (acyclic pre/post graph over 2-6 tasks with parameters and defaults, plain references and call(...) "
         "with baked positional/keyword arguments; tasks may have aliases, underscore names, autoprint, live in sub-collections "
-        "(dotted names, sub-collection default shortcut), and several Task objects may wrap ONE body function or the products "
+        "(dotted names, sub-collection default shortcut); signatures range over plain parameters with defaults, *rest, "
+        "keyword-only parameters and **kw, and call(...) entries differ in named values, in later extra positionals, in "
+        "keyword-only values or in **kw entries; DIFFERENT tasks may bear the same name in different collections (namesakes, "
+        "own bodies, equal or different signatures), and several Task objects may wrap ONE body function or the products "
         "of one factory - under the same name in another sub-collection or under another name - each with its own pre/post "
         "lists and options; optional default task; request list of length 0-3, every item under one of the names the task "
         "answers to, in one of four forms: names, (name, kwargs) pairs, contexts from the real Parser, argv through the real "
@@ -22,11 +25,14 @@ RULE = ("case = (acyclic pre/post graph over 2-6 tasks with parameters and defau
         "real Executor.execute and is judged on its own; non-trivial = at least two invocations; distinct = distinct canonical "
         "cases.  Exhaustive part: every graph over <=3 parameterless tasks with <=2 pre+post edges per task x every request "
         "list of length <=3 x dedupe on/off, and every pair of pre/post lists (<=1 edge each, thorough <=2) for one function "
-        "wrapped by two same-named Task objects x 6 requests x dedupe on/off; thorough adds every 4-task graph (3468) x every "
+        "wrapped by two same-named Task objects x 6 requests x dedupe on/off, every pre/post list of a third task over two "
+        "namesake tasks docs.build / www.build x every request list of length <=2 x dedupe on/off, and every ordered pair "
+        "out of a menu of 6-8 argument lists for a task with *rest / keyword-only / **kw parameters called as pre- and "
+        "post-task; thorough adds every 4-task graph (3468) x every "
         "request list of length <=2 with dedupe on, a random 12% of the length-3 requests / 25% of the dedupe-off runs")
 TRUSTED = ["Lean 4.33 kernel", "axioms propext/Classical.choice/Quot.sound only",
            "harness/props/c04.py correspondence + canonicalisation (Task subclass that records the literal call arguments)",
-           "CPython argument binding, dict/tuple equality (modelled: kwEq, bind)",
+           "CPython argument binding, dict/tuple equality (modelled: kwEq, bind, bindS; the oracle binds with its own bound_of)",
            "model Invoke/Model/Executor.lean hand-written, tied by correspondence on every run"]
 ASSUMPTIONS = ["task graphs are acyclic (a cyclic pre/post graph makes expand_calls recurse forever; outside the property)",
                "argument values are ints and strings (Python's 1 == True == 1.0 coincidences are not modelled)",
@@ -42,7 +48,36 @@ ASSUMPTIONS = ["task graphs are acyclic (a cyclic pre/post graph makes expand_ca
 
 INTS = [0, 1]
 STRS = ["a", "b"]
-# parameter menus: (name, default) ; default None = required (string typed); ["i",n] / ["s",txt]
+# parameter menus: (name, default[, kind]); default None = required (string typed); ["i",n] / ["s",txt];
+# kind: "pk" positional-or-keyword (the default), "var" = *name, "ko" keyword-only, "varkw" = **name
+def pkind(p):
+    return p[2] if len(p) > 2 else "pk"
+
+
+def named_params(params, kinds=("pk", "ko")):
+    return [p for p in params if pkind(p) in kinds]
+
+
+def has_kind(params, kind):
+    return any(pkind(p) == kind for p in params)
+
+
+def needs_args(params):
+    return any(p[1] is None for p in named_params(params))
+
+
+def cli_requestable(params):
+    return not has_kind(params, "var") and not has_kind(params, "varkw")
+
+
+XMENUS = [
+    [["x", None], ["rest", None, "var"]],
+    [["rest", None, "var"]],
+    [["x", ["s", "a"]], ["k", ["i", 0], "ko"]],
+    [["x", None], ["rest", None, "var"], ["k", ["i", 1], "ko"]],
+    [["x", ["i", 0]], ["kw", None, "varkw"]],
+    [["rest", None, "var"], ["k", ["s", "a"], "ko"], ["kw", None, "varkw"]],
+]
 MENUS = [
     [],
     [],
@@ -64,20 +99,35 @@ class Runtime:
         self.literal = None
 
 
-def make_body(rt, name, params):
-    """A factory whose products share one code object (as tasks made by a user's factory function do)."""
-    sig = "".join(", %s" % p[0] if p[1] is None else ", %s=%r" % (p[0], p[1][1]) for p in params)
-    bound = ", ".join("%r: %s" % (p[0], p[0]) for p in params)
+def make_body(rt, name, params, uid):
+    """A factory whose products share one code object (as tasks made by a user's factory function do); bodies made by
+    different calls differ in their code (the constant `uid`), like functions written separately."""
+    parts, bound, star = [], [], False
+    for p in params:
+        k = pkind(p)
+        if k == "var":
+            parts.append("*" + p[0])
+            bound.append("%r: list(%s)" % (p[0], p[0]))
+            star = True
+        elif k == "varkw":
+            parts.append("**" + p[0])
+            bound.append("%r: dict(%s)" % (p[0], p[0]))
+        else:
+            if k == "ko" and not star:
+                parts.append("*")
+                star = True
+            parts.append(p[0] if p[1] is None else "%s=%r" % (p[0], p[1][1]))
+            bound.append("%r: %s" % (p[0], p[0]))
     src = ("def make(_rt, _tid):\n"
            "    def %s(c%s):\n"
-           "        return _rt_enter(_rt, _tid, {%s})\n"
-           "    return %s\n") % (name, sig, bound, name)
+           "        return _rt_enter(_rt, _tid, {%s}, %d)\n"
+           "    return %s\n") % (name, "".join(", " + x for x in parts), ", ".join(bound), uid, name)
     env = {"_rt_enter": rt_enter}
     exec(src, env)
     return env["make"]
 
 
-def rt_enter(rt, tid, bound):
+def rt_enter(rt, tid, bound, uid=None):
     lit = rt.literal
     rt.literal = None
     if lit is not None and lit[0] is not None:
@@ -116,7 +166,7 @@ def build(case):
             body = makers[t["code_of"]](rt, i)  # a factory product: same code object, different closure
             makers[i] = makers[t["code_of"]]
         else:
-            makers[i] = make_body(rt, t["name"], t["params"])
+            makers[i] = make_body(rt, t["name"], t["params"], i)
             body = makers[i](rt, i)
         bodies[i] = body
         obj = LTask(body, name=t["name"], pre=mk_calls(tasks, t["pre"]), post=mk_calls(tasks, t["post"]),
@@ -341,7 +391,10 @@ def model_line(case, reqkw):
     for i, t in enumerate(case["tasks"]):
         def calls(lst):
             return ",".join("%d/%s/%s" % (j, enc_pos(pos), enc_kw(kw)) for j, pos, kw in lst)
-        sig = "+".join((enc_chars(pn) + "!") if pd is None else "%s=%s" % (enc_chars(pn), enc_val(pd)) for pn, pd in t["params"])
+        def plist(ps):
+            return "+".join((enc_chars(q[0]) + "!") if q[1] is None else "%s=%s" % (enc_chars(q[0]), enc_val(q[1])) for q in ps)
+        sig = "%s~%s~%d~%d" % (plist(named_params(t["params"], ("pk",))), plist(named_params(t["params"], ("ko",))),
+                               has_kind(t["params"], "var"), has_kind(t["params"], "varkw"))
         ts.append("%d:%d:%s:%s:%s" % (cls[i], keyc[i], sig, calls(t["pre"]), calls(t["post"])))
     req = ",".join("%d/%s" % (i, enc_kw([(k, canon_val(v)) for k, v in kw.items()])) for i, kw in reqkw)
     dflt = case.get("default")
@@ -373,17 +426,29 @@ def canon_model(out):
 # ------------------------------------------------------------------ oracle (states the property)
 
 def bound_of(case, idx, pos, kw):
-    """the arguments the body must receive: positionals, then keywords, then defaults"""
+    """the arguments the body must receive (own binding against the signature, independent of invoke): positionals fill
+    the positional-or-keyword parameters in order, further ones go to *rest; keywords go to the parameter of that name,
+    others to **kw; then defaults"""
     out = {}
     params = case["tasks"][idx]["params"]
-    kwd = dict((k, v) for k, v in kw)
-    for n, (name, dflt) in enumerate(params):
+    kwd = dict((k, v[1]) for k, v in kw)
+    pk = named_params(params, ("pk",))
+    for n, p in enumerate(pk):
         if n < len(pos):
-            out[name] = pos[n][1]
-        elif name in kwd:
-            out[name] = kwd[name][1]
+            out[p[0]] = pos[n][1]
+        elif p[0] in kwd:
+            out[p[0]] = kwd.pop(p[0])
         else:
-            out[name] = None if dflt is None else dflt[1]
+            out[p[0]] = None if p[1] is None else p[1][1]
+    for p in params:
+        k = pkind(p)
+        if k == "var":
+            out[p[0]] = [v[1] for v in pos[len(pk):]]
+        elif k == "ko":
+            out[p[0]] = kwd.pop(p[0]) if p[0] in kwd else (None if p[1] is None else p[1][1])
+    for p in params:
+        if pkind(p) == "varkw":
+            out[p[0]] = dict(kwd)
     return out
 
 
@@ -495,18 +560,26 @@ def rand_value(rng, param):
 def rand_call(rng, tasks, j, allow_plain=True):
     """a pre/post entry referring to task j: [j, pos, kw]"""
     params = tasks[j]["params"]
-    required = [p for p in params if p[1] is None]
-    style = rng.random()
+    pk = named_params(params, ("pk",))
+    required = [p for p in pk if p[1] is None]
+    exotic = len(pk) != len(params)
     pos, kw = [], []
-    if required or not allow_plain or style < 0.5:
-        # positional prefix of random length (must cover nothing or a prefix), rest by keyword
-        npos = rng.choice([0, 0, 1, len(params)]) if params else 0
-        npos = min(npos, len(params))
-        for p in params[:npos]:
+    if required or exotic or not allow_plain or rng.random() < 0.5:
+        # positional prefix of random length, rest by keyword
+        npos = min(rng.choice([0, 0, 1, len(pk)]) if pk else 0, len(pk))
+        if has_kind(params, "var") and rng.random() < 0.7:
+            npos = len(pk)
+        for p in pk[:npos]:
             pos.append(rand_value(rng, p))
-        for p in params[npos:]:
+        if has_kind(params, "var") and npos == len(pk):
+            for _ in range(rng.choice([0, 1, 1, 2, 2, 3])):  # the extra positionals of *rest
+                pos.append(["s", rng.choice(STRS)])
+        for p in pk[npos:] + named_params(params, ("ko",)):
             if p[1] is None or rng.random() < 0.6:
                 kw.append([p[0], rand_value(rng, p)])
+        if has_kind(params, "varkw"):
+            for name in rng.sample(["z", "w"], rng.choice([0, 0, 1, 1, 2])):  # the entries of **kw
+                kw.append([name, ["i", rng.choice(INTS)]])
         rng.shuffle(kw)
     return [j, pos, kw]
 
@@ -539,13 +612,18 @@ def rand_req(rng, tasks, form, prefer=()):
             if prefer and rng.random() < 0.6:
                 j = rng.choice(list(prefer))
             params = tasks[j]["params"]
-            if form == "names" and any(p[1] is None for p in params):
+            if form == "names" and needs_args(params):
+                continue
+            if cli and not cli_requestable(params):
                 continue
             kw = []
             if form != "names":
-                for p in params:
+                for p in named_params(params):
                     if p[1] is None or rng.random() < 0.6:
                         kw.append([p[0], rand_value(rng, p)])
+                if has_kind(params, "varkw"):
+                    for name in rng.sample(["z", "w"], rng.choice([0, 1, 1, 2])):
+                        kw.append([name, ["i", rng.choice(INTS)]])
             req.append([j, kw, rng.choice(spellings({"tasks": tasks}, j, cli))])
             break
     return req
@@ -555,8 +633,16 @@ def random_case(rng):
     n = rng.randint(2, 5)
     tasks = []
     for i in range(n):
-        t = {"name": rng.choice(["t%d", "t%d", "t_%d"]) % i, "params": rng.choice(MENUS), "code_of": None, "body_of": None,
-             "ns": rng.choice([None, None, None, None, "p", "q_r"]), "sub_default": False}
+        t = {"name": rng.choice(["t%d", "t%d", "t_%d"]) % i, "params": rng.choice(MENUS if rng.random() < 0.7 else XMENUS),
+             "code_of": None, "body_of": None, "ns": rng.choice([None, None, None, None, "p", "q_r"]), "sub_default": False}
+        if i > 0 and rng.random() < 0.3:
+            # a NAMESAKE: a different task (own body, own code) with the name of an earlier one, in another collection
+            j = rng.randrange(i)
+            free = [x for x in NS if x not in [u["ns"] for u in tasks if u["name"] == tasks[j]["name"]]]
+            if free:
+                t["name"], t["ns"] = tasks[j]["name"], rng.choice(free)
+                if rng.random() < 0.6:
+                    t["params"] = tasks[j]["params"]
         t.update(rand_edges(rng, tasks, i))
         t.update(rand_options(rng, i))
         tasks.append(t)
@@ -589,10 +675,11 @@ def random_case(rng):
             rng.choice([t for t in tasks if t["ns"] == ns])["sub_default"] = True
     form = rng.choice(["names", "pairs", "pairs", "cli", "cli", "program"])
     prefer = derived + [t[j] for t in tasks for j in ("body_of", "code_of") if t.get(j) is not None]
+    prefer += [i for i, t in enumerate(tasks) if sum(1 for u in tasks if u["name"] == t["name"]) > 1]
     req = rand_req(rng, tasks, form, prefer)
     default = None
     if form in ("names", "program") and rng.random() < 0.15:
-        cands = [i for i, t in enumerate(tasks) if not t["ns"] and not any(p[1] is None for p in t["params"])]
+        cands = [i for i, t in enumerate(tasks) if not t["ns"] and not needs_args(t["params"])]
         if cands:
             default = rng.choice(cands)
             req = []
@@ -668,6 +755,33 @@ def run(ctx):
             for dd in (True, False):
                 cases.append({"tasks": g, "default": None, "form": "names", "req": [[j, []] for j in rq],
                               "dedupe": dd, "dedupe_via": "config"})
+    # 2c. namesakes: two DIFFERENT tasks called `build` (own bodies) in two sub-collections, a third task with every
+    #     pre/post list over them, every request list of length <= 2
+    for pre, post in edge_lists(2, 2):
+        g = [_t("build", ns="docs"), _t("build", ns="www"),
+             _t("site", pre=[[j, [], []] for j in pre], post=[[j, [], []] for j in post])]
+        for rq in [list(r) for k in (1, 2) for r in itertools.product(range(3), repeat=k)]:
+            for dd in (True, False):
+                cases.append({"tasks": g, "default": None, "form": "names", "req": [[j, []] for j in rq],
+                              "dedupe": dd, "dedupe_via": "config"})
+    # 2d. one task with *rest / keyword-only / **kw parameters called twice with argument lists out of a small menu
+    #     (pairs that agree on a prefix and differ only in a later extra positional, a keyword-only value, a **kw entry)
+    A, B = ["s", "a"], ["s", "b"]
+    menus = [
+        ([["x", None], ["rest", None, "var"]],
+         [([A], []), ([A, B], []), ([A, B, B], []), ([A, B, A], []), ([B], []), ([], [["x", A]])]),
+        ([["x", ["s", "a"]], ["k", ["i", 0], "ko"], ["kw", None, "varkw"]],
+         [([], []), ([], [["k", ["i", 0]]]), ([], [["k", ["i", 1]]]), ([], [["z", ["i", 1]]]), ([], [["z", ["i", 0]]]),
+          ([A], []), ([], [["x", A], ["z", ["i", 1]]]), ([], [["z", ["i", 1]], ["w", ["i", 1]]])]),
+        ([["rest", None, "var"], ["k", ["s", "a"], "ko"]],
+         [([], []), ([A], []), ([A, A], []), ([A], [["k", A]]), ([A], [["k", B]]), ([], [["k", A]])]),
+    ]
+    for params, calls in menus:
+        for c1, c2 in itertools.product(calls, repeat=2):
+            g = [_t("stop", params), _t("main", pre=[[0, c1[0], c1[1]]], post=[[0, c2[0], c2[1]]])]
+            for dd in (True, False):
+                cases.append({"tasks": g, "default": None, "form": "names", "req": [[1, []]], "dedupe": dd,
+                              "dedupe_via": "config"})
     out.exhaustive = True
     n_exh = len(cases)
     # 3. random graphs with parameters, baked arguments, all request forms, several names per task, shared bodies,
@@ -697,6 +811,12 @@ def run(ctx):
                 if any(cl[i] != i and (t["pre"], t["post"]) != (c["tasks"][cl[i]]["pre"], c["tasks"][cl[i]]["post"])
                        for i, t in enumerate(c["tasks"])):
                     out.hist["equal_tasks_with_different_pre_post"] += 1
+                nm = [t["name"] for t in c["tasks"]]
+                if any(nm.count(t["name"]) > 1 and cl[i] == i and not any(cl[j] == i for j in range(len(cl)) if j != i)
+                       for i, t in enumerate(c["tasks"])):
+                    out.hist["with_namesakes(different_bodies)"] += 1
+                if any(not cli_requestable(t["params"]) or has_kind(t["params"], "ko") for t in c["tasks"]):
+                    out.hist["with_varargs_kwonly_or_varkw_signature"] += 1
                 if c.get("default") is not None:
                     out.hist["default_task"] += 1
                 if any(pos or kw for t in c["tasks"] for (_j, pos, kw) in t["pre"] + t["post"]):
